@@ -57,7 +57,8 @@ def run(chk):
     chk.cov["rule"] = ("corpus + stored witnesses of the listed findings, then ~45% random pipelines (depth 1..5 quick / 1..7 thorough, all eleven operator kinds, 2 tables of 0..8 "
                        "rows with duplicates, null rate 0..0.1), ~10% the same with null rate 0.3..0.5, ~30% own shapes (extend chains the SQL generator merges or must "
                        "keep apart, pruning of unused columns and aggregates, a sub-pipeline shared by both sides of a join / concat, joins of sub-pipelines of all four "
-                       "types, order_rows with limit under further steps, ties), ~15% pipelines that deliberately reach each convention case; 8% on empty tables; "
+                       "types, order_rows with limit under further steps, ties, a window whose order / partition column is redefined by the extend directly below it, "
+                       "concat_rows of two different pipelines whose SQL steps list the columns in different orders), ~15% pipelines that deliberately reach each convention case; 8% on empty tables; "
                        "non-trivial = depth >= 2; distinct by script + tables")
     corpus, findings = load_cases("C01")
     SS.run_check(chk, "C01", VARIANTS, N[chk.tier], corpus, findings, deep=(chk.tier == "thorough"))
